@@ -32,7 +32,7 @@ ASSUMPTIONS = [
 ]
 CHUNK = 3
 
-BASES = [("bent3", "orthophase", "rydberg"), ("pair", "global", "rydberg"), ("bent3", "twophase", "rydberg"), ("bent3", "dmm", "rydberg"), ("zig4", "slm", "rydberg"), ("bent3", "global", "xy"), ("zig4", "twophase", "xy")]
+BASES = [("bent3", "orthophase", "rydberg"), ("bent3", "local", "rydberg"), ("pair", "global", "rydberg"), ("bent3", "twophase", "rydberg"), ("bent3", "dmm", "rydberg"), ("zig4", "slm", "rydberg"), ("bent3", "global", "xy"), ("zig4", "twophase", "xy")]
 
 
 def _rot(c, a):
